@@ -21,13 +21,18 @@
 (*   TrackChecksDown   a connection accepted concurrently with Shutdown is *)
 (*                     not served (FALSE: it is tracked after Shutdown     *)
 (*                     finished scanning and stays open)                   *)
+(*   StartupSafe       Shutdown may come before the serve call has        *)
+(*                     installed its listener: Shutdown then has nothing   *)
+(*                     to close and the serve call returns "server closed" *)
+(*                     at once (FALSE: Shutdown dereferences the missing   *)
+(*                     listener)                                           *)
 (*   UnmarkAfterWrite  a request counts as being handled until its reply   *)
 (*                     has been written (FALSE: only until the handler     *)
 (*                     returns - Shutdown can close the connection under   *)
 (*                     the pending reply and still report success)         *)
 (***************************************************************************)
 EXTENDS Integers, Sequences, FiniteSets, TLC, Json
-CONSTANTS K, CloseGuardOwn, CancelWakesAccept, ShutdownClaims, TrackChecksDown, UnmarkAfterWrite, Emit
+CONSTANTS K, CloseGuardOwn, CancelWakesAccept, ShutdownClaims, TrackChecksDown, UnmarkAfterWrite, StartupSafe, Emit
 
 Conns == 1..K
 
@@ -55,7 +60,7 @@ Init ==
     /\ rejects \in SUBSET Conns /\ (~onAccept => rejects = {})
     /\ cli = [c \in Conns |-> "none"] /\ sent = [c \in Conns |-> 0] /\ delivered = [c \in Conns |-> 0]
     /\ lis = "open" /\ queue = <<>>
-    /\ acc = "accept" /\ cur = 0
+    /\ acc = "starting" /\ cur = 0
     /\ sock = [c \in Conns |-> "none"]
     /\ tracked = {} /\ count = 0 /\ everTracked = {}
     /\ cpc = [c \in Conns |-> "none"] /\ ibh = [c \in Conns |-> FALSE] /\ started = [c \in Conns |-> 0]
@@ -100,6 +105,15 @@ Cancel ==
 UnchangedAccRest == UNCHANGED <<onAccept, onClose, rejects, sent, delivered, cpc, ibh, started, sdPc, sdCur, sdTodo, sdAllIdle, sdRet,
                                 sdStartedAtRet, sdOpenAtRet, isShutdown, ctxDone, crash, closeCb>>
 
+\* serve() installs its listener under the mutex (reference: unless Shutdown has already been called)    hook serve.start
+ServeStart ==
+    /\ acc = "starting" /\ mu = 0
+    /\ IF StartupSafe /\ isShutdown
+       THEN acc' = "returned" /\ serveRet' = "closed" /\ lis' = "closed"
+       ELSE acc' = "accept" /\ UNCHANGED <<serveRet, lis>>
+    /\ H("acc", 0)
+    /\ UnchangedAccRest /\ UNCHANGED <<cli, queue, cur, sock, tracked, count, everTracked, mu, acceptArg, liveAtCb>>
+
 \* l.Accept() returns a connection                                   hook accept.ret
 AcceptConn ==
     /\ acc = "accept" /\ lis = "open" /\ queue # <<>>
@@ -119,7 +133,7 @@ AcceptFail ==
 
 \* context cancelled while blocked in Accept (reference design: a watcher closes the listener)
 CancelWake ==
-    /\ CancelWakesAccept /\ ctxDone /\ lis = "open" /\ acc # "returned"
+    /\ CancelWakesAccept /\ ctxDone /\ lis = "open" /\ acc \notin {"starting", "returned"}
     /\ lis' = "closed"
     /\ UnchangedAccRest /\ UNCHANGED <<cli, queue, acc, cur, sock, tracked, count, everTracked, mu, serveRet, acceptArg, liveAtCb, hist>>
 
@@ -248,10 +262,13 @@ UnchangedSdRest == UNCHANGED <<onAccept, onClose, rejects, cli, sent, delivered,
 \* s.mu.Lock(); isShutdown.Store(true); listener.Close()             hooks sd.start, sd.lisclosed
 SdStart ==
     /\ sdPc = "idle" /\ ~ctxDone /\ mu = 0 /\ acc # "returned"
-    /\ mu' = -1 /\ isShutdown' = TRUE /\ lis' = "closed"
+    /\ mu' = -1 /\ isShutdown' = TRUE
+    \* before the serve call has installed the listener there is nothing Shutdown could close
+    /\ IF acc = "starting" THEN (lis' = lis /\ crash' = (crash \/ ~StartupSafe)) ELSE (lis' = "closed" /\ crash' = crash)
     /\ sdPc' = "scan" /\ sdTodo' = tracked /\ sdAllIdle' = TRUE /\ sdCur' = 0
     /\ H("shutdown", 0)
-    /\ UnchangedSdRest /\ UNCHANGED <<sock, ibh, sdRet, sdStartedAtRet, sdOpenAtRet>>
+    /\ UNCHANGED <<onAccept, onClose, rejects, cli, sent, delivered, queue, acc, cur, tracked, count, everTracked, cpc, started,
+                   ctxDone, serveRet, closeCb, acceptArg, liveAtCb, sock, ibh, sdRet, sdStartedAtRet, sdOpenAtRet>>
 
 \* isBeingHandled.Load() for one connection                          hook sd.check
 SdCheck(c) ==
@@ -299,12 +316,12 @@ Quiescent ==
 
 Next ==
     \/ \E c \in Conns : Dial(c) \/ Send(c) \/ Hangup(c)
-    \/ Cancel \/ AcceptConn \/ AcceptFail \/ CancelWake \/ AcceptCb \/ CtxCheck \/ TrackAdd
+    \/ Cancel \/ ServeStart \/ AcceptConn \/ AcceptFail \/ CancelWake \/ AcceptCb \/ CtxCheck \/ TrackAdd
     \/ \E c \in Conns : ConnLeave(c) \/ ConnRead(c) \/ ConnMark(c) \/ ConnHandle(c) \/ ConnWrite(c) \/ ConnUnmark(c) \/ ConnClose(c) \/ ConnUntrack(c) \/ ConnCloseCb(c)
     \/ SdStart \/ (\E c \in Conns : SdCheck(c)) \/ SdClose \/ SdPassEnd \/ SdTimeout
     \/ (Quiescent /\ UNCHANGED vars)
 
-AccSteps == AcceptConn \/ AcceptFail \/ CancelWake \/ AcceptCb \/ CtxCheck \/ TrackAdd
+AccSteps == ServeStart \/ AcceptConn \/ AcceptFail \/ CancelWake \/ AcceptCb \/ CtxCheck \/ TrackAdd
 ConnSteps(c) == ConnLeave(c) \/ ConnRead(c) \/ ConnMark(c) \/ ConnHandle(c) \/ ConnWrite(c) \/ ConnUnmark(c) \/ ConnClose(c) \/ ConnUntrack(c) \/ ConnCloseCb(c)
 SdSteps == (\E c \in Conns : SdCheck(c)) \/ SdClose \/ (SdPassEnd /\ sdAllIdle) \/ SdTimeout
 
@@ -321,7 +338,7 @@ CloseExactlyOnce == \A c \in Conns : (cpc[c] = "done" /\ onClose) => closeCb[c] 
 \* after Shutdown returned nil: the listener is closed, no served connection is left open, every started handler delivered its reply
 AfterShutdown ==
     sdRet = "nil" =>
-        /\ lis = "closed"
+        /\ (acc # "starting" => lis = "closed")     \* (a serve call that has not begun yet closes its listener when it begins)
         /\ sdOpenAtRet = {}          \* every connection Shutdown knew about is closed
         /\ sdStartedAtRet = {}       \* every request whose handler had started has its reply
 NoStragglerAfterShutdown == (sdRet = "nil" /\ acc = "returned") => \A c \in Conns : sock[c] # "open"
